@@ -241,7 +241,8 @@ class World:
 
     def ctx(self, name):
         if name not in self.ctxs:
-            self.ctxs[name] = strax.Context(storage=[strax.DataDirectory(os.path.join(self.base, name))], register=PLUGINS)
+            self.ctxs[name] = strax.Context(storage=[strax.DataDirectory(os.path.join(self.base, name), provide_run_metadata=(name == "rundoc"))],
+                                            register=PLUGINS)
         return self.ctxs[name]
 
     def _make(self):
@@ -261,7 +262,18 @@ class World:
                 for p in sorted(os.listdir(os.path.join(self.base, lay))):
                     if f"-{dt}-" in p:
                         shutil.copytree(os.path.join(self.base, lay, p), os.path.join(d, p))
-        self.layouts = ["orig", "tiny", "giant", "mix_gt", "mix_tg", "mix_og"]
+        # a directory whose frontend provides a run document for run `e`: start 2.75 s before the first whole second of the data
+        d = os.path.join(self.base, "rundoc")
+        os.makedirs(d)
+        for p in sorted(os.listdir(os.path.join(self.base, "orig"))):
+            if p.startswith("e-"):
+                shutil.copytree(os.path.join(self.base, "orig", p), os.path.join(d, p))
+        import datetime
+        t0e = (_RUNS["e"]["start"] // 10**9)
+        self.rundoc_start_s = t0e - 3
+        start = datetime.datetime.utcfromtimestamp(t0e - 3) + datetime.timedelta(microseconds=250000)
+        self.ctx("rundoc").storage[0].write_run_metadata("e", dict(start=start, end=start + datetime.timedelta(seconds=20)))
+        self.layouts = ["orig", "tiny", "giant", "mix_gt", "mix_tg", "mix_og", "rundoc"]
         for lay in self.layouts:
             self.listing0[lay] = self.listing(lay)
         for run in self.runs:
@@ -302,9 +314,9 @@ class World:
             b.update(_CUTS[lay][run])
         return sorted(b)
 
-    def exact_secs(self, run):
+    def exact_secs(self, run, t0run=None):
         """seconds-since-run-start (reduced fractions n/d) of every endpoint whose float conversion is exact"""
-        t0run = (_RUNS[run]["start"] // 10**9) * 10**9
+        t0run = (_RUNS[run]["start"] // 10**9) * 10**9 if t0run is None else t0run
         out = []
         for p in self.endpoints(run):
             m = Fraction(p - t0run, 10**9)
@@ -421,6 +433,8 @@ def targs_tok(ta):
         parts.append(f"sr:{a}/{b}:{c}/{d}")
     if "tw" in ta:
         parts.append(f"tw:{ta['tw'][0]}:{ta['tw'][1]}")
+    if "rs" in ta:      # context, not an argument: whole-second start of the run document of this directory
+        parts.append(f"rs:{ta['rs']}")
     return "+".join(parts) if parts else "-"
 
 
@@ -459,7 +473,7 @@ def abs_range(ta, run):
     if "tw" in ta:
         return tuple(ta["tw"])
     if "sr" in ta:
-        t0 = (_RUNS[run]["start"] // 10**9) * 10**9
+        t0 = ta["rs"] * 10**9 if "rs" in ta else (_RUNS[run]["start"] // 10**9) * 10**9
         out = []
         for n, d in ta["sr"]:
             x = Fraction(10**9) * Fraction(n, d)
@@ -587,7 +601,7 @@ def oracle_abs(case, out):
         return f"conversion failed: {out}"
     exp = abs_range(ta, case["run"])
     got = None if out == "ok none" else tuple(int(x) for x in out[3:].split(" "))
-    if len([k for k in ("tr", "sr", "tw") if k in ta]) == 1 and got != exp:
+    if len([k for k in ("tr", "sr", "tw") if k in ta]) == 1 and got != exp:    # (`rs` is context, not an argument)
         return f"absolute range {got} != {exp}"
     return None
 
@@ -866,18 +880,42 @@ def oracle_plan(case, out):
 
 # ----------------------------------------------------------------------------- 7. findings: degenerate ranges, drop-all
 def impl_degenerate(case):
+    """outcome of get_array(time_range=(t, t)) in the three layouts; an error is printed with its kind and whether it is the
+    epilogue's 'returned no chunks' message"""
     outs = []
+    t = case["ta"]["tr"][0]
     for lay in ("orig", "tiny", "giant"):
-        c = dict(case, layout=lay, k=("deg", case["k"], lay))
-        outs.append(impl_get(c).split(" | ")[0])
+        try:
+            a = W.ctx(lay).get_array("a", "src", progress_bar=False, processor="single_thread", time_range=(t, t),
+                                     time_selection=MODE_KW[case["mode"]])
+            ids = ids_from(a)
+            outs.append("ok " + (",".join(map(str, ids)) if ids else "-"))
+        except Exception as e:  # noqa: BLE001
+            outs.append("err " + sl.err_name(e) + (":no-chunks" if "returned no chunks" in str(e) else ""))
     return " / ".join(outs)
 
 
 def oracle_degenerate(case, out):
+    """Exact expectation per layout.  Rows containing t (touching) must be returned everywhere.  Where the predicate selects
+    nothing, the property allows an empty result or the explicit error, but the SAME one in every layout; the code gives the
+    empty result iff t is strictly inside a stored chunk, else `ValueError ... returned no chunks` — that pair, and only
+    that pair, is the recorded finding."""
     outs = out.split(" / ")
+    t = case["ta"]["tr"][0]
+    rows = _RUNS["a"]["rows"]
+    exp_rows = [r[2] for r in rows if r[1] > t and r[0] < t] if case["mode"] == "to" else []
+    exp = []
+    for lay in ("orig", "tiny", "giant"):
+        inside = any(a < t < b for a, b, _ in W.stored(lay, "a", "src"))
+        if exp_rows:
+            exp.append("ok " + ",".join(map(str, exp_rows)))
+        else:
+            exp.append("ok -" if inside else "err ValueError:no-chunks")
+    if outs != exp:
+        return f"request with the empty range ({t}, {t}) gave {out}, expected {' / '.join(exp)} (rows containing t everywhere; else empty result / explicit no-chunk error)"
     if len(set(outs)) > 1:
-        return (f"empty range [{case['ta']['tr'][0]},{case['ta']['tr'][1]}): outcome depends on the on-disk chunking "
-                f"(orig / tiny / giant = {out})")
+        return (f"empty range [{t},{t}): outcome depends on the on-disk chunking: empty result where t is strictly inside a stored chunk, "
+                f"ValueError 'returned no chunks' where t is on a chunk boundary (orig / tiny / giant = {out})")
     return None
 
 
@@ -1149,6 +1187,30 @@ def _run(ctx, rng):
                         "rotating layouts / targets; every third pair also as absolute time_range resp. time_within",
                    branch=lambda c, o: ("+".join(kk for kk in ("tr", "sr", "tw") if kk in c["ta"])) + ":" + branch_get(c, o))
     _SIDE.clear()
+
+    # 4b'' run start taken from a run document (the production path): directory `rundoc`, document start 2.75 s before the data's
+    #      first whole second -> t0 = floor(start) ; seconds_range endpoints exactly convertible, expected values from Fractions
+    rs = W.rundoc_start_s
+    secs_doc = sorted(W.exact_secs("e", rs * 10**9), key=lambda f: Fraction(*f))
+    cases = []
+    for j, (sa, sb) in enumerate((x, y) for x in secs_doc for y in secs_doc if Fraction(*x) < Fraction(*y)):
+        if j % 2 == 0:
+            cases.append(base_case(next(k), "e", "rundoc", ("src",), "single_thread", {"sr": [list(sa), list(sb)], "rs": rs}, ("fc", "to")[(j // 2) % 2]))
+    ctx.correspond("get_array/seconds-run-document", cases, impl_get, op_get, oracle_get, nontrivial=nontrivial_get,
+                   rule="directory whose frontend provides a run document for run `e` (start = 1.7e18 ns - 2.75 s): seconds_range is relative to the "
+                        "document's start floored to a second, not to the data; every second pair of exactly convertible endpoints on / 1 ns inside / "
+                        "1 ns outside every row and chunk boundary, modes alternating",
+                   branch=branch_get)
+    _SIDE.clear()
+    acases = []
+    for _ in range(ctx.pick(100, 600)):
+        ta = {"sr": [list(rng.choice(secs_doc + [(-1, 512), (7, 4)])), list(rng.choice(secs_doc + [(0, 1)]))], "rs": rs}
+        if rng.random() < 0.3:
+            ta["tr"] = [rng.choice(W.endpoints("e")), rng.choice(W.endpoints("e"))]
+        acases.append(dict(run="e", layout="rundoc", target="src", ta=ta))
+    ctx.correspond("to_absolute_time_range/run-document", acases, impl_abs, op_abs, oracle_abs, nontrivial=lambda c, o: True,
+                   rule="Context.to_absolute_time_range with the run start taken from the run document (floored to whole seconds)",
+                   branch=lambda c, o: "+".join(kk for kk in ("tr", "sr") if kk in c["ta"]) + ":" + o.split(" ")[0])
 
     # 4c the full result itself must not depend on layout or processor
     cases = []
